@@ -57,8 +57,25 @@ def run(idx: Index, rep: Report, tier: str) -> None:
     for a in want_attr:
         rep.check(a in attrs, rule1, f"validator reads .{a}", val.loc(), construct=a, detail="" if a in attrs else f"no method of TimeTriggeredPlanValidator reads .{a}: that part of the plan/problem cannot influence the verdict", function=val.qualname)
     want_chain = ["duration.lower", "duration.upper", "duration.is_left_open", "duration.is_right_open", "interval.is_left_open", "interval.lower", "interval.upper", "timing.delay"]
+    # the same through local aliases (`d = action.duration; d.lower`): chains with locals replaced by what they hold
+    from ..dataflow import DefUse as _DU
+
+    expanded: Set[str] = set()
+    for m in methods:
+        mcfg = cfg_of(m)
+        mdu = _DU(mcfg)
+        for nd in mcfg.nodes:
+            if nd.ast is None:
+                continue
+            for n in ast.walk(nd.ast):
+                if isinstance(n, ast.Attribute) and n.attr in ("lower", "upper", "is_left_open", "is_right_open", "delay") and not isinstance(n.value, ast.Attribute):
+                    try:
+                        for ch in mdu.expanded_chains(n, nd):
+                            expanded.add(".".join(x.rstrip("()") for x in ch))
+                    except Exception:
+                        pass
     for c in want_chain:
-        ok = any(ch.endswith(c) for ch in chains)
+        ok = any(ch.endswith(c) for ch in chains) or any(ch.endswith(c) for ch in expanded)
         rep.check(ok, rule1, f"validator reads {c}", val.loc(), construct=c, detail="" if ok else f"no method reads {c}", function=val.qualname)
     # timing kinds
     it = idx.func(TT + "._instantiate_timing")
@@ -72,13 +89,32 @@ def run(idx: Index, rep: Report, tier: str) -> None:
     seen = 0
     first_args: Set[str] = set()
     bound_names = {"lower": set(), "upper": set()}
-    for n in walk_no_nested(val.node):
-        if isinstance(n, ast.If) and isinstance(n.test, ast.Call) and call_name(n.test) in ("is_left_open", "is_right_open") and "duration" in norm(n.test):
+    # the duration constraint is built in _validate or in a helper method of the validator it calls
+    def _from_duration(e, host_cfg, host_du):
+        if "duration" in norm(e):
+            return True
+        nds_ = host_cfg.node_containing(e)
+        if not nds_:
+            return False
+        try:
+            return any("duration" in x for ch in host_du.expanded_chains(e, nds_[0]) for x in ch)
+        except Exception:
+            return False
+
+    host = val
+    for m in methods:
+        if any(isinstance(n, ast.If) and isinstance(n.test, ast.Call) and call_name(n.test) in ("is_left_open", "is_right_open") for n in walk_no_nested(m.node)) and any(isinstance(c, ast.Call) and call_name(c) in ("GT", "GE") for c in walk_no_nested(m.node)):
+            host = m
+            break
+    hcfg = cfg_of(host)
+    hdu = _DU(hcfg)
+    for n in walk_no_nested(host.node):
+        if isinstance(n, ast.If) and isinstance(n.test, ast.Call) and call_name(n.test) in ("is_left_open", "is_right_open") and _from_duration(n.test.func.value, hcfg, hdu):
             pred = call_name(n.test)
             for outcome, body in ((True, n.body), (False, n.orelse)):
                 calls = [c for s in body for c in ast.walk(s) if isinstance(c, ast.Call) and call_name(c) in ("GT", "GE", "LT", "LE")]
                 want_op, want_bound = table[(pred, outcome)]
-                ok = len(calls) == 1 and call_name(calls[0]) == want_op and len(calls[0].args) == 2 and isinstance(calls[0].args[0], ast.Name) and norm(calls[0].args[1]).endswith("duration." + want_bound)
+                ok = len(calls) == 1 and call_name(calls[0]) == want_op and len(calls[0].args) == 2 and isinstance(calls[0].args[0], ast.Name) and isinstance(calls[0].args[1], ast.Attribute) and calls[0].args[1].attr == want_bound and _from_duration(calls[0].args[1].value, hcfg, hdu)
                 seen += 1
                 if ok:
                     first_args.add(calls[0].args[0].id)
@@ -87,10 +123,10 @@ def run(idx: Index, rep: Report, tier: str) -> None:
                             bound_names[want_bound].add(st.targets[0].id)
                 rep.check(ok, rule2, f"duration constraint: {pred}()=={outcome} -> {want_op}(duration, duration.{want_bound})", val.loc(calls[0] if calls else n), construct=norm(calls[0]) if calls else "no comparison built", detail="" if ok else f"an action duration on the {'open' if outcome else 'closed'} {want_bound} bound is compared with the wrong strictness/bound", function=val.qualname)
     if seen < 4:
-        raise AnalysisError(f"{rule2}: found {seen} of the 4 openness branches in _validate (anchor vanished)")
+        raise AnalysisError(f"{rule2}: found {seen} of the 4 openness branches in {host.name} (anchor vanished)")
     # the two constraints are conjoined and registered as a condition of the action instance
     rep.check(len(first_args) == 1, rule2, "duration constraint: the four comparisons constrain the same value (the instance's duration)", val.loc(), construct=f"compared values: {len(first_args)} distinct name(s)", detail="" if len(first_args) == 1 else "the lower and the upper constraint are stated about different values", function=val.qualname)
-    ands = [c for c in walk_no_nested(val.node) if isinstance(c, ast.Call) and call_name(c) == "And" and len(c.args) == 2 and all(isinstance(a, ast.Name) for a in c.args) and any(a.id in bound_names["lower"] for a in c.args) and any(a.id in bound_names["upper"] for a in c.args)]
+    ands = [c for c in walk_no_nested(host.node) if isinstance(c, ast.Call) and call_name(c) == "And" and len(c.args) == 2 and all(isinstance(a, ast.Name) for a in c.args) and any(a.id in bound_names["lower"] for a in c.args) and any(a.id in bound_names["upper"] for a in c.args)]
     rep.check(bool(ands), rule2, "duration constraint: lower and upper constraint conjoined", val.loc(ands[0]) if ands else val.loc(), construct=norm(ands[0]) if ands else "", detail="" if ands else "the lower and upper duration constraints are not both enforced", function=val.qualname)
     # condition interval openness is propagated
     ii = idx.func(TT + "._instantiate_interval")
